@@ -347,11 +347,11 @@ Für {{gender;for-pronoun;alias-feminine-element|jede|jeden|jedes}} Hausnummer e
 	Erhöhe summe um e.
 
 Die Funktion gib_h gibt {{gender;return-type;alias-feminine|eine|einen|ein}} Hausnummer zurück, macht:
-	Gib 1 zurück.
+	Gib {{wrongtype;returned-value;alias-of-Zahl<-Text|1|"eins"}} zurück.
 Und kann so benutzt werden:
 	"gib_h"
 Die Funktion gib_n gibt {{gender;return-type;alias-masculine|einen|eine|ein}} Namen zurück, macht:
-	Gib "n" zurück.
+	Gib {{wrongtype;returned-value;alias-of-Text<-Zahl|"n"|1}} zurück.
 Und kann so benutzt werden:
 	"gib_n"
 Die Funktion gib_ms gibt {{gender;return-type;alias-neuter|ein|einen|eine}} Mass zurück, macht:
@@ -359,9 +359,13 @@ Die Funktion gib_ms gibt {{gender;return-type;alias-neuter|ein|einen|eine}} Mass
 Und kann so benutzt werden:
 	"gib_ms"
 Die Funktion gib_m gibt {{gender;return-type;definition-feminine|eine|einen|ein}} Marke zurück, macht:
-	Gib 1 als Marke zurück.
+	Gib {{wrongtype;returned-value;definition-of-Zahl<-Zahl-without-conversion|1 als Marke|1|summe}} zurück.
 Und kann so benutzt werden:
 	"gib_m"
+Die Funktion gib_zm gibt eine Zahl zurück, macht:
+	Gib {{wrongtype;returned-value;Zahl<-definition-of-Zahl-without-conversion|1|1 als Marke}} zurück.
+Und kann so benutzt werden:
+	"gib_zm"
 
 Die Zahl g1 ist die Größe von {{gender;groesse;alias-feminine|einer|einem}} Hausnummer.
 Die Zahl g2 ist die Größe von {{gender;groesse;alias-masculine|einem|einer}} Namen.
